@@ -185,6 +185,8 @@ LEVEL_TEXT['C05'] += ' Added (unit leaddot): the flag that switches the leading-
 TECH['C05'] += ' + Ast::starts_with_literal_dot'
 LEVEL_TEXT['C11'] += ' Added (unit trapbi): the trap built-in asks the table for exactly its action, once per condition operand, in order, overriding an initially ignored signal exactly in an interactive shell, and reports every refusal.'
 TECH['C11'] += ' + trap built-in Command::execute / set_action against a ghost log of the requests made to TrapSet::set_action'
+LEVEL_TEXT['C14'] += ' Added (unit heredoc): the descriptor a here-document is read from holds exactly the bytes of the body, rewound to the beginning, and is closed again when it cannot be filled.'
+TECH['C14'] += ' + here_doc::open_fd / fill_content over a ghost file map'
 
 def main():
     checks = []
